@@ -3,6 +3,9 @@ import json, os
 V = os.path.dirname(os.path.dirname(os.path.abspath(__file__)))
 ALL = ['C%02d' % i for i in range(1, 21)]
 CHECKS = {
+ 'C16': dict(technique='Coq proof over an IR regenerated from cli/main.py (cli2v translator), for every library behaviour + subprocess correspondence',
+             text='C16_test, C16_set, C16_rm, C16_unknown, C16_terminate hold for every library behaviour, document, path and value over the match arms regenerated from cli/main.py on every run and interpreted by Cli/CliIR.v; the real CLI (both channels) is compared with the interpreted arms inside Coq and the property is stated directly against the observations.',
+             note='trusted: Coq kernel, cli2v translator, the Python facts written into the IR interpreter (print, uncaught exception => exit 1, evaluation order); argparse and the two input channels are observed, not modelled (finding F-28 lives there)', ref='6 C16'),
  'C12': dict(technique='Coq proof over Gallina regenerated from the Python source (py2v translator) + exhaustive in-Coq function correspondence',
              text='Theorems C12_addressable, C12_written, C12_split_written, C12_written_injective, C12_accepted_wellformed, C12_malformed hold for ALL strings over the definitions regenerated from /repo on every run (_parse_npath, _format_attr_name, _escape_nix_string, _split_attrpath, identifier regex, keyword table) against a hand-written spec of Nix\'s lexer; the one-spelling clause is refuted by theorem (finding F-13, listed). A code change to these functions changes the generated model, so a broken property breaks a proof script.',
              note='trusted: Coq kernel, the py2v translator (validated each run by exhaustive short-string correspondence incl. raise sites), Lex/NixLex.v+NixAttr.v as the meaning of "Nix reads"; binding lookup by written name is covered by the edit model (C05/C19) and the names-roundtrip search, not by these theorems', ref='6 C12'),
